@@ -539,6 +539,11 @@ fn malleability__structural_rearrangements_are_rejected() {
             _ => {}
         }
         push("tag of another encapsulation", XEnc { tag: x2.tag, ..x1.clone() });
+        // changes of the tag that a folded / order-insensitive comparison would not see
+        { let mut t = x1.tag; t[0] ^= 0x01; t[1] ^= 0x01; push("tag with two bytes xored by the same value", XEnc { tag: t, ..x1.clone() }); }
+        { let mut t = x1.tag; t[3] ^= 0xa5; t[12] ^= 0xa5; push("tag with two distant bytes xored by the same value", XEnc { tag: t, ..x1.clone() }); }
+        if let Some(j) = (1..x1.tag.len()).find(|j| x1.tag[*j] != x1.tag[0]) { let mut t = x1.tag; t.swap(0, j); push("tag with two bytes swapped", XEnc { tag: t, ..x1.clone() }); }
+        { let mut t = x1.tag; t.reverse(); if t != x1.tag { push("tag reversed", XEnc { tag: t, ..x1.clone() }); } }
         push("traps of another encapsulation", XEnc { c: x2.c.clone(), ..x1.clone() });
         let mut c = x1.c.clone(); c.reverse(); push("reordered traps", XEnc { c, ..x1.clone() });
         let mut c = x1.c.clone(); c.pop(); push("dropped trap", XEnc { c, ..x1.clone() });
